@@ -82,7 +82,7 @@ def templates(toks):
     return res
 
 
-def classify(body, fname, free, absroots, members, singles, relroots):
+def classify(body, fname, free, absroots, members, singles, relroots, methods):
     n = len(body)
     if n == 1 and body[0][0] == 'id':
         # a fragment that is one identifier: spliced into another template (a method name behind `.`), or not generated
@@ -97,6 +97,9 @@ def classify(body, fname, free, absroots, members, singles, relroots):
         if k == 'p' and t == '#' and i + 1 < n:
             nk, nt, _ = body[i + 1]
             if nk == 'id':
+                if i > 0 and body[i - 1][1] == '.' and i + 2 < n and body[i + 2][1] in ('(', '::'):
+                    # `x.#name(..)`: a method call whose name is spliced in
+                    methods.setdefault('#' + nt, f'{fname}:{ln}')
                 i += 2
                 continue
             if nt == '(':
@@ -127,6 +130,9 @@ def classify(body, fname, free, absroots, members, singles, relroots):
                     if before[0] == 'id' and before[1] in ('crate', 'super', 'self'):
                         # a path relative to the *user's* crate or module
                         relroots.setdefault(before[1], f'{fname}:{ln}')
+            elif prev == '.' and i + 1 < n and body[i + 1][1] in ('(', '::'):
+                # a method call `x.name(..)`: looked up among the inherent methods *and the traits in scope of the user*
+                methods.setdefault(t, f'{fname}:{ln}')
             elif prev in ('.', 'fn', 'type'):
                 members.setdefault(t, f'{fname}:{ln}')
             elif i + 1 < n and body[i + 1][1] == '=' and prev in ('<', ','):
@@ -142,7 +148,7 @@ def classify(body, fname, free, absroots, members, singles, relroots):
 def main():
     repo = sys.argv[1] if len(sys.argv) > 1 else os.environ.get('VERIF_REPO', '/repo')
     src = os.path.join(repo, 'derive-ex', 'src')
-    free, absroots, members, fmts, singles, prefixes, relroots = {}, {}, {}, {}, {}, {}, {}
+    free, absroots, members, fmts, singles, prefixes, relroots, methods = {}, {}, {}, {}, {}, {}, {}, {}
     ntempl = 0
     for root, _, files in os.walk(src):
         for f in sorted(files):
@@ -157,7 +163,7 @@ def main():
             toks = lex(text)
             for name, body, ln in templates(toks):
                 ntempl += 1
-                classify(body, rel, free, absroots, members, singles, relroots)
+                classify(body, rel, free, absroots, members, singles, relroots, methods)
                 # nested templates inside a template body are rare; handled by the outer walk
             for i, (k, t, ln) in enumerate(toks):
                 if k == 'id' and t == 'format_ident' and toks[i + 1][1] == '!' and toks[i + 3][0] == 'str':
@@ -180,12 +186,14 @@ def main():
     print('def quoteAbsRoots : List String := ' + lean_list(absroots))
     print('/-- heads of paths relative to the user\'s crate or module (`crate::`, `super::`, `self::`) -/')
     print('def quoteRelRoots : List String := ' + lean_list(relroots))
+    print('/-- names called in method syntax (`x.name(..)`): looked up among the traits in scope of the user as well -/')
+    print('def quoteMethods : List String := ' + lean_list(methods))
     print('/-- format strings of `format_ident!` -/')
     print('def quoteFormatIdents : List String := ' + lean_list({k.strip('"'): v for k, v in fmts.items()}))
     print('/-- prefixes of per-field binders and helper functions: the string literals passed to `make_ident` / `make_pat*` -/')
     print('def quoteBinderPrefixes : List String := ' + lean_list(prefixes))
     print('/-- where each was first seen -/')
-    print('def quoteWhere : List (String × String) := [' + ', '.join(f'("{k}", "{v}")' for k, v in sorted({**free, **absroots, **singles, **prefixes}.items())) + ']')
+    print('def quoteWhere : List (String × String) := [' + ', '.join(f'("{k}", "{v}")' for k, v in sorted({**free, **absroots, **singles, **prefixes, **methods}.items())) + ']')
     print('end DX.Generated')
 
 
